@@ -64,6 +64,9 @@ fn main() {
                 with_pos: a.n("pos", 0) != 0,
                 repeat_bias: a.f("repeat-bias", 0.0),
                 emit_gen: a.n("gen", 1) != 0,
+                bfs_depth: a.n("bfs", 0) as usize,
+                bfs_budget: a.n("bfs-budget", 6000) as usize,
+                family: a.n("family", 0) as usize,
             };
             let mut sd = seeds();
             if let Some(p) = a.kv.get("seeds-file") {
@@ -98,7 +101,7 @@ fn main() {
             json!({"events": 1})
         }
         "scen" => {
-            let v = srch::scenarios(&t, &seeds(), a.n("seed", 1), a.n("small", 10) as usize, a.n("mate", 10) as usize, a.n("rep", 10) as usize, a.n("game", 5) as usize);
+            let v = srch::scenarios(&t, &seeds(), a.n("seed", 1), a.n("small", 10) as usize, a.n("mate", 10) as usize, a.n("rep", 10) as usize, a.n("game", 5) as usize, a.n("term", 0) as usize);
             std::fs::write(a.s("out", "scen.json"), serde_json::to_string(&v).unwrap()).unwrap();
             json!({"scenarios": v.as_array().unwrap().len()})
         }
@@ -113,6 +116,7 @@ fn main() {
                 srch::tree_events(&t, &cmds, &a.s("out", "."), a.n("shards", 16) as usize, a.n("depth", 3) as u8, a.n("budget", 200000), a.n("cap", 60000) as usize)
             }
         }
+        "slices" => misc::slice_events(&a.s("in", ""), &a.s("out", "")),
         "audit" => {
             let (n, distinct, zeros) = t.audit();
             json!({"constants": n, "distinct": distinct, "zeros": zeros})
